@@ -102,3 +102,54 @@ fn reused_writer_with_unresolvable_principal_address() {
     assert_eq!(stacks_kept(&fresh), 0, "sanity: no principal mapping, every stack is dropped");
     assert_eq!(stacks_kept(&second), 0, "the principal mapping of the first dump leaked into the second one");
 }
+
+/// A destination that fails the k-th write.
+struct FailingAt { inner: std::io::Cursor<Vec<u8>>, writes: usize, fail_at: usize }
+impl std::io::Write for FailingAt {
+    fn write(&mut self, b: &[u8]) -> std::io::Result<usize> {
+        self.writes += 1;
+        if self.writes == self.fail_at { return Err(std::io::Error::new(std::io::ErrorKind::Other, "injected")); }
+        self.inner.write(b)
+    }
+    fn flush(&mut self) -> std::io::Result<()> { Ok(()) }
+}
+impl std::io::Seek for FailingAt {
+    fn seek(&mut self, p: std::io::SeekFrom) -> std::io::Result<u64> { self.inner.seek(p) }
+}
+
+/// C19 over histories that contain FAILED requests: after a request that was aborted by a hard error
+/// (an unreadable app-memory region; an I/O error of the destination at the 4th, 6th and 9th write)
+/// the next request on the same writer equals a fresh writer's dump.
+#[test]
+fn reused_writer_after_failed_requests() {
+    use minidump_writer::app_memory::AppMemory;
+    let mut child = start_child_and_wait_for_threads(3);
+    let pid = child.id() as i32;
+    let fresh = MinidumpWriter::new(pid, pid).dump(&mut std::io::Cursor::new(Vec::new())).expect("fresh dump");
+    let rf = memory_regions(&fresh);
+    let mut bad = Vec::new();
+
+    let mut w = MinidumpWriter::new(pid, pid);
+    w.set_app_memory(vec![AppMemory { ptr: 0, length: 16 }]);
+    match w.dump(&mut std::io::Cursor::new(Vec::new())) {
+        Err(_) => {}
+        Ok(_) => bad.push("sanity: an unreadable app-memory region must abort the request".to_string()),
+    }
+    w.set_app_memory(Vec::new());
+    let after = w.dump(&mut std::io::Cursor::new(Vec::new())).expect("dump after a failed one");
+    if memory_regions(&after) != rf {
+        bad.push(format!("after a request aborted by an unreadable app-memory region the next dump lists {} regions, a fresh writer {}", memory_regions(&after).len(), rf.len()));
+    }
+    for fail_at in [4usize, 6, 9] {
+        let mut w = MinidumpWriter::new(pid, pid);
+        let mut dest = FailingAt { inner: std::io::Cursor::new(Vec::new()), writes: 0, fail_at };
+        if w.dump(&mut dest).is_ok() { bad.push(format!("sanity: write #{fail_at} was never reached")); continue; }
+        let after = w.dump(&mut std::io::Cursor::new(Vec::new())).expect("dump after a failed one");
+        if memory_regions(&after) != rf {
+            bad.push(format!("after a request aborted by an I/O error at write #{fail_at} the next dump lists {} regions, a fresh writer {}", memory_regions(&after).len(), rf.len()));
+        }
+    }
+    child.kill().expect("Failed to kill process");
+    child.wait().expect("Failed to wait on killed process");
+    assert!(bad.is_empty(), "{}", bad.join("\n"));
+}
